@@ -296,6 +296,9 @@ func (e *Exec) Run() {
 			e.Stats.Inc("fault.clock.local_time_zone")
 		}
 	}
+	if e.Prop == "C04" && Keyed(e.S.Seed, "seq-binding", 0).Chance(0.3) {
+		e.probeDidSeqBinding()
+	}
 	perNodeEnv = e.S.Config.EnvPerNode
 	if perNodeEnv {
 		e.Stats.Inc("fault.env.per_node_process_environment")
